@@ -598,6 +598,9 @@ class Lib:
             return BoundLib("str." + name, obj)
         if isinstance(obj, TokList):
             return BoundLib("toklist." + name, obj)
+        from .text import Tok
+        if isinstance(obj, Tok):
+            return BoundLib("tok." + name, obj)
         if isinstance(obj, Ref):
             if obj.kind == "list":
                 return BoundLib("list." + name, obj)
@@ -702,6 +705,14 @@ class Lib:
         if kind in ("df", "series", "groupby"):
             from .pandas_model import pandas_method
             return pandas_method(interp, kind, recv, meth, args, kwargs)
+        if kind == "tok":
+            # string predicates of a numeric / unknown token
+            if meth == "isnumeric":
+                if recv.kind == "int":
+                    return sv.cmp(">=", recv.value, 0)           # digits only (a sign is not numeric)
+                if recv.kind == "sym" and "isnumeric" in recv.value:
+                    return recv.value["isnumeric"]
+            raise EngineError(f"str.{meth} on a token of kind {recv.kind}")
         if kind == "tuple":
             if meth == "count":
                 return sum(1 for x in recv if interp.decide(interp.py_eq(x, args[0])))
